@@ -8,4 +8,9 @@ require (
 	golang.org/x/crypto v0.26.0
 )
 
+require (
+	github.com/x448/float16 v0.8.4 // indirect
+	golang.org/x/sys v0.23.0 // indirect
+)
+
 replace github.com/ldclabs/cose => /repo
